@@ -198,6 +198,7 @@ type scenario struct {
 	Target *chainT // chain a never-crashed node is on after operation + continuation
 	ForkAt uint64  // common ancestor height; 0 when Old == Target
 	End    uint64  // the continuation goes up to this height of Target
+	fs     *fsData // fast-sync scenarios
 	preTip uint64
 	preDB  dbm.DB
 	store  ipfs.Proxy
@@ -274,10 +275,16 @@ func (r *runner) scenario(d scDesc, retain int) *scenario {
 		forkProd = pa.clone()
 	}
 	endA := h0 + 2
+	if d.Op == "FastSync" {
+		endA = h0 + uint64(len(d.Kinds)) + 2
+	}
 	for h := base.tip + 1; h <= endA; h++ {
 		kind := filler()
 		if (d.Op == "Add" || d.Op == "Alt") && h == h0+1 {
 			kind = d.Kinds[0]
+		}
+		if d.Op == "FastSync" && h > h0 && h <= h0+uint64(len(d.Kinds)) {
+			kind = d.Kinds[h-h0-1]
 		}
 		A.b[h] = pa.next(kind, 20)
 		if h == forkAt {
@@ -295,6 +302,9 @@ func (r *runner) scenario(d scDesc, retain int) *scenario {
 	case "Reset":
 		sc.Op = []step{{What: "ResetTo", To: h0 - uint64(d.K)}}
 		sc.Target, sc.End = A, h0+1
+	case "FastSync":
+		buildFastSync(sc, pa, A, h0, d.Kinds)
+		sc.Op[0].Sc = sc
 	case "Fork", "Alt":
 		B := &chainT{name: "B", b: map[uint64]*blk{}}
 		for h := uint64(2); h <= forkAt; h++ {
@@ -357,7 +367,7 @@ func (r *runner) reference(sc *scenario) *refRun {
 	lo, hi := sc.window()
 	db := sim.NewCrashDB(sim.CopyDB(sc.preDB))
 	db.HeadId = r.headId
-	n := r.w.Boot(kTest, db, sc.store)
+	n := r.w.Boot(kTest, db.NewHandle(), sc.store)
 	if n.BootErr != nil {
 		panic(n.BootErr)
 	}
@@ -399,7 +409,15 @@ func (r *runner) enumerate(nScn, nDouble, shardK, shardN int) {
 		d.Long = rnd.Intn(2) == 0
 		d.H0 = 4 + rnd.Intn(3)
 		d.Pad = rnd.Intn(3)
-		switch rnd.Intn(4) {
+		switch (x + rnd.Intn(2)) % 5 {
+		case 4:
+			d.Op = "FastSync"
+			for i, m := 0, 2+rnd.Intn(3); i < m; i++ {
+				d.Kinds = append(d.Kinds, kinds[rnd.Intn(4)])
+			}
+			if rnd.Intn(3) > 0 {
+				d.Kinds[rnd.Intn(len(d.Kinds))] = "idupd"
+			}
 		case 0:
 			d.Op, d.Kinds = "Add", []string{kinds[rnd.Intn(4)]}
 		case 1:
@@ -416,6 +434,10 @@ func (r *runner) enumerate(nScn, nDouble, shardK, shardN int) {
 			continue
 		}
 		sc := r.scenario(d, 0)
+		if d.Op == "FastSync" {
+			r.enumFastSync(sc, d, rnd, nDouble)
+			continue
+		}
 		for i := 0; i <= sc.ref.n; i++ {
 			c := &caseT{Sc: d, Src: "enum", Crashes: []crashPt{{Ph: "op", I: i}}}
 			if i == sc.ref.n {
@@ -429,5 +451,33 @@ func (r *runner) enumerate(nScn, nDouble, shardK, shardN int) {
 			r.runCase(c)
 			r.stats["enum2"]++
 		}
+	}
+}
+
+// enumFastSync crashes the fast-sync procedure at every write index, except that of the long runs of
+// bulk writes (copy of the identity database, deletion of the replaced databases) only the first,
+// the last and a seeded sample are taken.
+func (r *runner) enumFastSync(sc *scenario, d scDesc, rnd *rand.Rand, nDouble int) {
+	bulk := map[string]bool{"PCopy": true, "DropOld": true, "SnapPut": true}
+	var is []int
+	for i := 0; i < sc.ref.n; i++ {
+		k := sc.ref.kinds[i]
+		if !bulk[k] || i == 0 || sc.ref.kinds[i-1] != k || i == sc.ref.n-1 || sc.ref.kinds[i+1] != k || rnd.Intn(60) == 0 {
+			is = append(is, i)
+		}
+	}
+	is = append(is, sc.ref.n)
+	for _, i := range is {
+		c := &caseT{Sc: d, Src: "enum", Crashes: []crashPt{{Ph: "op", I: i}}}
+		if i == sc.ref.n {
+			c.Crashes[0].K = "clean"
+		}
+		r.runCase(c)
+		r.stats["enumfs"]++
+	}
+	for y := 0; y < nDouble; y++ {
+		c := &caseT{Sc: d, Src: "enum2", Crashes: []crashPt{{Ph: "op", I: is[rnd.Intn(len(is)-1)]}, {Ph: "cont", I: rnd.Intn(12)}}}
+		r.runCase(c)
+		r.stats["enumfs2"]++
 	}
 }
